@@ -519,7 +519,7 @@ func (ss *SortedSet) FindRank(key string) int {
 				x = x.level[i].forward
 			}
 
-			if x.key == key {
+			if x != ss.header && x.key == key {
 				return rank
 			}
 		}
